@@ -6,7 +6,7 @@
    behaviour of strconv.  The model of /repo instantiates them with
    Token.int32_lit and the harness-supplied float oracle. *)
 From AL Require Import Expr.Parser Expr.Grammar Expr.ParserProofs.
-From AL Require Import Expr.Lexer Expr.LexerSpec Expr.LexerProofs Expr.ParseSrc Expr.ParseSrcProofs Expr.ParseLazy Expr.LexWs.
+From AL Require Import Expr.Lexer Expr.LexerSpec Expr.LexerProofs Expr.ParseSrc Expr.ParseSrcProofs Expr.ParseLazy Expr.LexWs Expr.ParsePrec.
 
 (* parser level, over token lists *)
 Theorem C04_parse_sound : forall int_lit float_ok ts e,
@@ -144,3 +144,30 @@ Theorem C04_lex_positions : forall plus src ts f,
   lex_all plus src = (ts, f) -> Forall (tok_pos_ok src) ts.
 Proof. exact lex_positions. Qed.
 Print Assumptions C04_lex_positions.
+
+(* precedence for every accepted token list, grouping included.  [tops 0 ts] are
+   the kinds of the tokens of ts not enclosed in ( ) or [ ]:  an unenclosed `||`
+   makes `||` the root; else an unenclosed `&&` makes `&&` the root; else an
+   unenclosed comparison operator makes a comparison the root; and the operand of
+   `!` never contains an unenclosed binary operator *)
+Theorem C04_root_or : forall int_lit float_ok ts e,
+  parse_toks int_lit float_ok ts = POk e -> In TOr (tops 0 ts) -> exists l r, e = ELog LOr l r.
+Proof. exact parse_root_or. Qed.
+Print Assumptions C04_root_or.
+
+Theorem C04_root_and : forall int_lit float_ok ts e,
+  parse_toks int_lit float_ok ts = POk e -> ~ In TOr (tops 0 ts) -> In TAnd (tops 0 ts) ->
+  exists l r, e = ELog LAnd l r.
+Proof. exact parse_root_and. Qed.
+Print Assumptions C04_root_and.
+
+Theorem C04_root_cmp : forall int_lit float_ok ts e k op,
+  parse_toks int_lit float_ok ts = POk e -> ~ In TOr (tops 0 ts) -> ~ In TAnd (tops 0 ts) ->
+  In k (tops 0 ts) -> cmp_of_kind k = Some op -> exists op' l r, e = ECmp op' l r.
+Proof. exact parse_root_cmp. Qed.
+Print Assumptions C04_root_cmp.
+
+Theorem C04_not_binds_tightest : forall int_lit float_ok ts e,
+  d_pre int_lit float_ok ts e -> free f_pre ts.
+Proof. exact not_binds_tightest. Qed.
+Print Assumptions C04_not_binds_tightest.
